@@ -1,5 +1,6 @@
 import ZenoModel.Driver.Codec
 import ZenoModel.Model.Store
+import ZenoModel.Model.Spec
 
 namespace Zeno.Drv
 open Lean
@@ -65,5 +66,14 @@ def storeEngine (j : Json) : R Json := do
         outs := outs.push (Json.mkObj [("rows", Json.arr (r.rows.map rowJson).toArray), ("stopped", Json.bool r.stopped)])
     | o => throw s!"store: unknown op {o}"
   pure (Json.mkObj [("outs", Json.arr outs), ("now", Json.str (timeStr st.now))])
+
+/-- engine `spec`: the raw-point reference semantics of one table -/
+def specEngine (j : Json) : R Json := do
+  let cfg ← parseCfg (← obj j "cfg")
+  let ps ← (← arr j "points").toList.mapM parseRawPoint
+  let s := specTableD dummyExt cfg (boolD j "dup" false) ps
+  let rows := s.rows.map (fun r => Json.mkObj [("key", keyJson r.key), ("period", Json.str (timeStr r.period)),
+    ("cells", Json.arr (r.cells.map cellsJson).toArray)])
+  pure (Json.mkObj [("rows", Json.arr rows.toArray), ("now", Json.str (timeStr s.now))])
 
 end Zeno.Drv
